@@ -17,6 +17,8 @@ OUT = os.path.dirname(os.path.abspath(__file__))
 # moon_phase targets can be generated too (add them here), but one target needs > 40 min / 6 GB to check
 FINDERS = {"moon_phase": [], "moon_perigee_apogee": ["perigee", "apogee"],
            "moon_passage_nodes": ["ascending", "descending"], "moon_maximum_declination": ["northern", "southern"]}
+# targets whose closed form is also proved without the Epoch(x) hypothesis (thorough tier, C02's constructor theorem)
+EXACT = [("moon_passage_nodes", "ascending"), ("moon_passage_nodes", "descending"), ("moon_perigee_apogee", "apogee")]
 BAD_STRINGS = ["", "New", "NEW", "half", "none", "newer"]
 TLO, THI = -41, 21
 
@@ -382,6 +384,8 @@ def emit(src, fnode, fn, target):
     w("Theorem ok : closed_stmt /\\ timing J0 B cc C %s." % jde_final)
     w("Proof. exact (conj closed timing_ok). Qed.")
     open(os.path.join(OUT, mod + ".v"), "w").write("\n".join(L) + "\n")
+    if (fn, target) in EXACT:
+        emit_exact(mod, fn, target, jde_final, shape, extra_hyp, allv, g.fnames, y0, rate)
     return mod, {"J0": float(g.J0[2]), "B": float(g.B[2]), "C": float(C), "result": jde_final, "ret": g.ret,
                  "off": float(off[2]) if off else 0.0}
 
@@ -395,6 +399,53 @@ def incr_ival(g, node, ti, cache):
         env[py] = g.veval(g.incr_env[id(node)][py], ti, cache)
     return g.ival(node, env)
 
+
+
+def emit_exact(mod, fn, target, jde_final, shape, extra_hyp, allv, fnames, y0, rate):
+    L = []
+    w = L.append
+    w("(* Moon.%s(epoch, %r) (thorough tier) -- the closed form without the hypothesis about Epoch(x): for a fractional" % (fn, target))
+    w("   year in -2000..4001 the instant handed to Epoch() is in the range of C02's Epoch_ctor_exact_ideal, so the returned")
+    w("   Epoch holds exactly mean(k) + periodic terms.  Written by mkmoon.py (checked in). *)")
+    w(HEADER.replace("From Proofs.C15 Require Import C15_angle C15_tac2 C15_fdefs.",
+                     "From Proofs.C02 Require Import C02_ctor_ideal.\nFrom Proofs.C15 Require Import C15_angle C15_tac2 C15_fdefs %s." % mod))
+    yl, rl = rlit(y0[0], y0[1]), rlit(rate[0], rate[1])
+    w("Lemma k_window yr : -2000 <= yr <= 4001 -> -41 <= kk yr / cc <= 21.")
+    w("Proof.")
+    w("  intro H. rewrite kk_index. pose proof (Rround_bounds ((yr - %s) * %s)) as Rb." % (yl, rl))
+    w("  set (n := IZR (Rround ((yr - %s) * %s))) in *." % (yl, rl))
+    w("  assert (Hn : -55000 <= n + off <= 28000).")
+    w("  { revert Rb. unfold off. lit_norm. intro Rb. lra. }")
+    w("  revert Hn. generalize (n + off). intros x Hx. unfold cc. lit_norm. split; interval.")
+    w("Qed.")
+    w("Lemma X_in_range yr : -2000 <= yr <= 4001 -> jde_in_range (%s (kk yr))." % jde_final)
+    w("Proof.")
+    w("  intro H. pose proof (k_window yr H) as Hk. pose proof (dev_bound _ Hk) as D. apply abs_le_inv in D.")
+    w("  assert (Hx : -55000 <= kk yr <= 28000).")
+    w("  { rewrite kk_index. pose proof (Rround_bounds ((yr - %s) * %s)) as Rb. revert Rb. unfold off. lit_norm. intro Rb. lra. }" % (yl, rl))
+    w("  revert D. unfold jde_in_range, J0, B, C. lit_norm. intro D. lra.")
+    w("Qed.")
+    w("")
+    w("Definition exact_stmt : Prop :=")
+    w("  forall (j : R) (y m : Z) (d doy : R) (lp : bool) (A : R -> R),")
+    w("  date_is j y m d -> leap_is y lp -> doy_is y m d doy ->%s" % extra_hyp)
+    w("  let yr := frac_year y doy lp in -2000 <= yr <= 4001 ->")
+    sh = shape.replace("(E (%s (kk yr)))" % jde_final, "(%s (kk yr))" % jde_final)
+    w("  Moon_%s Rops (VObj cEpoch [VFloat j]) (VStr \"%s\") =\n  %s." % (fn, target, sh))
+    w("Theorem exact : exact_stmt.")
+    w("Proof.")
+    w("  unfold exact_stmt, date_is, leap_is, doy_is%s." % (", Angle_dms_of" if "dms" in extra_hyp else ""))
+    w("  intros j y m d doy lp A Hd Hl Hdoy%s Hyr." % (" HA" if extra_hyp else ""))
+    w("  pose proof reduce_rd as HR. pose proof new_rd as HN. pose proof pos_rd as HP.")
+    w("  pose proof (Epoch_ctor_exact_ideal _ (X_in_range _ Hyr)) as HE. clear Hyr.")
+    w("  unfold frac_year in *.")
+    w("  destruct lp; (match goal with |- _ =>")
+    w("    unfold angle_val, kk, %s, %s in HE; cbv iota in HE;" % (", ".join(allv), ", ".join(fnames)))
+    w("    pyrun2;")
+    w("    unfold angle_val, kk, %s, %s;" % (", ".join(allv), ", ".join(fnames)))
+    w("    reflexivity end).")
+    w("Qed.")
+    open(os.path.join(OUT, mod.replace("C15_f_", "C15_x_") + ".v"), "w").write("\n".join(L) + "\n")
 
 def emit_errors(fn, targets, others):
     L = []
@@ -442,3 +493,22 @@ if __name__ == "__main__":
         others = [t for t in alltargets if t not in (targets or ["new", "first", "full", "last"])][:4]
         print(emit_errors(fn, targets, others))
     json.dump(table, open(os.path.join(OUT, "moonfinders.json"), "w"), indent=1, sort_keys=True)
+    # thorough-tier statements: closed forms without the Epoch(x) hypothesis
+    L = []
+    w = L.append
+    w("(* Property C15 (thorough tier) -- lunar finder closed forms with Epoch(x) = the Epoch holding exactly x (property C02's")
+    w("   Epoch_ctor_exact_ideal) instead of a hypothesis, for a fractional year in -2000..4001.  Remaining hypotheses: the values of")
+    w("   Epoch.get_date / is_leap / get_doy (and Angle(0,0,p) for the parallax).  T15_* obligations, not listed in THEOREMS. *)")
+    w("From Coq Require Import Reals ZArith List Bool Lra String.")
+    w("From PyLib Require Import PyVal PyBuiltins Ideal.")
+    w("From Gen Require Import M_base M_Angle M_Epoch M_Moon.")
+    w("From Proofs.C15 Require Import C15_fdefs.")
+    for fn, t in EXACT: w("From Proofs.C15 Require C15_x_%s_%s." % (fn, t))
+    w("Open Scope R_scope.")
+    for fn, t in EXACT:
+        w("Theorem T15_%s_%s_exact : C15_x_%s_%s.exact_stmt." % (fn, t, fn, t))
+        w("Proof. exact C15_x_%s_%s.exact. Qed." % (fn, t))
+    for fn, t in EXACT:
+        w('Redirect "T15_%s_%s_exact.assumptions" Print Assumptions T15_%s_%s_exact.' % (fn, t, fn, t))
+    open(os.path.join(OUT, "C15_exact.v"), "w").write("\n".join(L) + "\n")
+
